@@ -4,6 +4,8 @@ package main
 
 import (
 	"fmt"
+	"math/big"
+	"regexp"
 
 	"go/token"
 	"go/types"
@@ -149,6 +151,8 @@ func init() {
 	for _, n := range []string{"Log", "Metric", "Point", "logf", "Logf"} {
 		reg(rulioPath+"/core."+n, noop)
 	}
+	reg("(*"+rulioPath+"/core.Parameters).Log", noop)
+	reg("("+rulioPath+"/core.Parameters).Log", noop)
 	reg(rulioPath+"/core.NewTimer", func(ex *Exec, fr *frame, a []Value) Value { return (*Value)(nil) })
 	reg("("+"*"+rulioPath+"/core.Timer).Stop", func(ex *Exec, fr *frame, a []Value) Value { return int64(0) })
 	reg("("+"*"+rulioPath+"/core.Timer).StopTag", func(ex *Exec, fr *frame, a []Value) Value { return int64(0) })
@@ -312,6 +316,17 @@ func init() {
 		})
 	}
 
+	reg("sync/atomic.StorePointer", func(ex *Exec, fr *frame, a []Value) Value {
+		p := a[0].(*Value)
+		ex.atomicSync(p)
+		*p = a[1]
+		return nil
+	})
+	reg("sync/atomic.LoadPointer", func(ex *Exec, fr *frame, a []Value) Value {
+		p := a[0].(*Value)
+		ex.atomicSync(p)
+		return *p
+	})
 	reg("(*sync/atomic.Value).Store", func(ex *Exec, fr *frame, a []Value) Value {
 		p := a[0].(*Value)
 		ex.atomicSync(p)
@@ -341,7 +356,28 @@ func init() {
 		f := strings.TrimSpace(strings.Repeat("%v ", len(xs))) + "\n"
 		return ex.sprintf(fr, f, a[0])
 	})
-	for _, n := range []string{"fmt.Printf", "fmt.Println", "fmt.Print", "fmt.Fprintf", "fmt.Fprintln", "log.Printf", "log.Println", "log.Print"} {
+	reg("fmt.Fprintf", func(ex *Exec, fr *frame, a []Value) Value {
+		w, ok := a[0].(Iface)
+		if !ok || w.T == nil {
+			return Tuple{int64(0), Iface{}}
+		}
+		s := ex.sprintf(fr, a[1], a[2])
+		var bs Value
+		switch sv := s.(type) {
+		case string:
+			bs = strBytes(sv)
+		case *Term:
+			bs = &SymBytes{sv}
+		}
+		ms := ex.w.prog.MethodSets.MethodSet(w.T)
+		if sel := ms.Lookup(nil, "Write"); sel != nil {
+			if fn := ex.w.prog.MethodValue(sel); fn != nil {
+				return ex.call(fr, 0, fn, []Value{w.V, bs})
+			}
+		}
+		return Tuple{int64(0), Iface{}}
+	})
+	for _, n := range []string{"fmt.Printf", "fmt.Println", "fmt.Print", "fmt.Fprintln", "log.Printf", "log.Println", "log.Print"} {
 		reg(n, func(ex *Exec, fr *frame, a []Value) Value { return Tuple{int64(0), Iface{}} })
 	}
 	reg("log.Printf", noop)
@@ -365,6 +401,11 @@ func init() {
 		return simplify(TContains(strTerm(a[0]), strTerm(a[1])))
 	})
 	reg("strings.Index", func(ex *Exec, fr *frame, a []Value) Value {
+		if _, isJSON := a[0].(*JSONStr); isJSON {
+			// text of a JSON token: "may occur at a positive offset" (callers use this as
+			// a cheap pre-check before parsing)
+			return int64(1)
+		}
 		return simplify(TIndexOf(strTerm(a[0]), strTerm(a[1])))
 	})
 	reg("strings.TrimPrefix", func(ex *Exec, fr *frame, a []Value) Value {
@@ -455,6 +496,59 @@ func init() {
 		return strings.EqualFold(s, o)
 	})
 
+	// ---- regexp (concrete patterns and subjects only) ----
+	compile := func(ex *Exec, a []Value) (Value, error) {
+		pat, ok := a[0].(string)
+		if !ok {
+			return nil, fmt.Errorf("symbolic pattern")
+		}
+		if _, err := regexp.Compile(pat); err != nil {
+			return nil, err
+		}
+		cell := Value(Struct{pat})
+		return &cell, nil
+	}
+	reg("regexp.Compile", func(ex *Exec, fr *frame, a []Value) Value {
+		re, err := compile(ex, a)
+		if err != nil {
+			return Tuple{(*Value)(nil), ex.newError("regexp: " + err.Error())}
+		}
+		return Tuple{re, Iface{}}
+	})
+	reg("regexp.MustCompile", func(ex *Exec, fr *frame, a []Value) Value {
+		re, err := compile(ex, a)
+		if err != nil {
+			return &Opaque{"regexp.MustCompile: " + err.Error()}
+		}
+		return re
+	})
+	rex := func(ex *Exec, v Value) *regexp.Regexp {
+		p, ok := v.(*Value)
+		if !ok || p == nil {
+			ex.inconclusive("regexp receiver is not an engine regexp")
+		}
+		st, ok := (*p).(Struct)
+		if !ok {
+			ex.inconclusive("regexp receiver is not an engine regexp")
+		}
+		return regexp.MustCompile(st[0].(string))
+	}
+	reg("(*regexp.Regexp).ReplaceAllString", func(ex *Exec, fr *frame, a []Value) Value {
+		src, ok1 := a[1].(string)
+		repl, ok2 := a[2].(string)
+		if !ok1 || !ok2 {
+			ex.inconclusive("regexp on a symbolic string")
+		}
+		return rex(ex, a[0]).ReplaceAllString(src, repl)
+	})
+	reg("(*regexp.Regexp).MatchString", func(ex *Exec, fr *frame, a []Value) Value {
+		src, ok := a[1].(string)
+		if !ok {
+			ex.inconclusive("regexp on a symbolic string")
+		}
+		return rex(ex, a[0]).MatchString(src)
+	})
+
 	// ---- strconv ----
 	reg("strconv.Itoa", func(ex *Exec, fr *frame, a []Value) Value { return simplify(TFromInt(intTerm(a[0]))) })
 	reg("strconv.FormatInt", func(ex *Exec, fr *frame, a []Value) Value {
@@ -505,6 +599,13 @@ func init() {
 	// ---- time ----
 	reg("time.Now", func(ex *Exec, fr *frame, a []Value) Value { return ex.timeStruct(ex.clock) })
 	reg("time.Unix", func(ex *Exec, fr *frame, a []Value) Value {
+		if sec, ok := a[0].(int64); ok && (sec > 9_000_000_000 || sec < -9_000_000_000) {
+			// beyond what nanoseconds-in-int64 can hold (e.g. sys.EndOfTime): saturate
+			if sec > 0 {
+				return ex.timeStruct(int64(1) << 62)
+			}
+			return ex.timeStruct(-(int64(1) << 62))
+		}
 		ns := TAdd(TMul(intTerm(a[0]), TInt(1_000_000_000)), intTerm(a[1]))
 		return ex.timeStruct(simplify(ns))
 	})
@@ -526,6 +627,29 @@ func init() {
 	})
 	reg("(time.Time).Add", func(ex *Exec, fr *frame, a []Value) Value {
 		return ex.timeStruct(simplify(TAdd(intTerm(timeNs(a[0])), intTerm(a[1]))))
+	})
+	reg("(time.Time).Truncate", func(ex *Exec, fr *frame, a []Value) Value {
+		// rounding down to a multiple of d since the zero time (year 1); the Unix epoch
+		// lies 62135596800 s after it
+		d, ok := a[1].(int64)
+		if !ok {
+			return &Opaque{"Time.Truncate with symbolic duration"}
+		}
+		if d <= 0 {
+			return a[0]
+		}
+		off := new(big.Int).Mul(big.NewInt(62135596800), big.NewInt(1_000_000_000))
+		offmod := new(big.Int).Mod(off, big.NewInt(d)).Int64()
+		ns := intTerm(timeNs(a[0]))
+		r := TMod(TAdd(ns, TInt(offmod)), TInt(d))
+		return ex.timeStruct(simplify(TSub(ns, r)))
+	})
+	reg("(time.Duration).Truncate", func(ex *Exec, fr *frame, a []Value) Value {
+		m, ok := a[1].(int64)
+		if !ok || m <= 0 {
+			return a[0]
+		}
+		return simplify(TSub(intTerm(a[0]), TRemTrunc(intTerm(a[0]), TInt(m))))
 	})
 	reg("(time.Time).Before", func(ex *Exec, fr *frame, a []Value) Value {
 		return simplify(TLt(intTerm(timeNs(a[0])), intTerm(timeNs(a[1]))))
